@@ -4,7 +4,7 @@ from pyvc.contracts import Registry
 
 def build():
     R = Registry()
-    from . import theory, c_cropping_batch, c_cropping_reap, c_stats, c_runner, c_prepare
+    from . import theory, c_cropping_batch, c_cropping_reap, c_stats, c_runner, c_prepare, c_labels
     theory.install(R)
     c_cropping_batch.install(R)
     c_cropping_reap.install(R)
@@ -14,7 +14,12 @@ def build():
     c_runner.install(R)
     c_runner.install_core(R)
     c_runner.install_cases(R)
+    c_runner.install_core_summary(R)
     c_prepare.install(R)
+    c_labels.install(R)
+    c_labels.install_ds(R)
+    c_labels.install_to_ds(R)
+    c_labels.install_wrappers(R)
     # calls dropped as no-ops (DESIGN 2.2) -- every dropped call site is listed in the evidence
     R.inert |= {"print", "warnings.warn", "progbar", "time.sleep", "logger.setLevel", "logging.getLogger",
                 "sys.stderr.flush"}
